@@ -67,9 +67,12 @@ def run(pb, req):
                     answers.append({"ok": [[fl(x) for x in r] for r in it]})
             except BaseException as e:  # noqa: BLE001
                 answers.append({"err": f"{type(e).__name__}: {e}"})
-        chroms = {k: v for k, v in b.chroms().items()}
+        # the table as the binding returns it: a dict whose order is the table's order
+        table = b.chroms()
+        chroms = [[k, v] for k, v in table.items()]
+        one = {k: b.chroms(k) for k, _ in chroms[:3]}
         b.close()
-        return {"answers": answers, "chroms": chroms}
+        return {"answers": answers, "chroms": chroms, "chroms_by_name": one}
     raise ValueError("unknown op " + op)
 
 
